@@ -103,9 +103,35 @@ def run(res, prop_id, timeout=420):
                 "tests": rep.get("tests"), "pytest": tail[0][:100]})
 
 
-def replay(witness):
-    """A suite witness names the test: re-run exactly that test under the monitors."""
+def replay(witness, prop_id):
+    """A suite witness names the test: exactly that test is run again under the monitors."""
     from .runner import ShardResult
     res = ShardResult()
-    res.notes.append("suite witness: re-run `pytest -p hsverif.suitemon " + str(witness.get("test")) + "`")
+    repo_root = os.path.dirname(os.path.abspath(SRC))
+    scratch = new_scratch("suiter")
+    out = os.path.join(scratch, "suitemon.json")
+    env = dict(os.environ)
+    env.update({"HSVERIF_SUITEMON_OUT": out, "PYTHONDONTWRITEBYTECODE": "1", "TMPDIR": scratch,
+                "PYTHONPATH": os.path.dirname(os.path.dirname(os.path.abspath(__file__))) + os.pathsep + os.path.abspath(SRC)})
+    try:
+        subprocess.run([sys.executable, "-m", "pytest", "-q", "-p", "no:cacheprovider", "-p", "hsverif.suitemon",
+                        "--basetemp", os.path.join(scratch, "bt"), str(witness.get("test"))],
+                       cwd=repo_root, env=env, stdout=subprocess.PIPE, stderr=subprocess.STDOUT, timeout=300)
+        if not os.path.exists(out):
+            res.inconclusive.append("the named test could not be run again under the monitors")
+            return res
+        with open(out, encoding="utf-8") as f:
+            rep = json.load(f)
+    except subprocess.TimeoutExpired:
+        res.inconclusive.append("the named test did not finish within 300 s")
+        return res
+    finally:
+        rmtree(scratch)
+    res.evaluations = sum(rep["judged"].get(c, 0) for c in COUNTER_OF.get(prop_id, ()))
+    for v in rep["violations"]:
+        if v["monitor"] == witness.get("monitor") and prop_id in _owner(v):
+            print("monitor fired again:", v)
+            res.violation({"engine": "suite-under-monitors", "monitor": v["monitor"], "method": v["method"],
+                           "detail_keys": sorted(v.get("detail", {}))},
+                          {"engine": "suite", "test": v["test"], "monitor": v["monitor"], "method": v["method"], "detail": v.get("detail")})
     return res
